@@ -20,10 +20,17 @@ static FILE *tr;
  * scenarios may run at any magnitude of the monotonic clock (2^32 ms and beyond) while the logged numbers
  * stay small (TLC integers are 32-bit).  Differences and second boundaries are preserved exactly. */
 static uint64_t t_origin = 0;                 /* multiple of 1000 */
-#define TMS(x) ((unsigned long long)((uint64_t)(x) - t_origin))
-#define TSEC(x) ((unsigned long long)((uint64_t)(x) - t_origin / 1000))
-#define TMS0(x) ((x) ? TMS(x) : 0ULL)         /* 0 stays "never" */
-#define TSEC0(x) ((x) ? TSEC(x) : 0ULL)
+/* signed and clamped: a time before the origin (or absurdly far after it) stays a number TLC can read, and stays
+ * wrong for the monitor to see */
+static long long rel_clamp(long long x) {
+    if (x < -999999999LL) return -999999999LL;
+    if (x > 999999999LL) return 999999999LL;
+    return x;
+}
+#define TMS(x) rel_clamp((long long)((uint64_t)(x) - t_origin))
+#define TSEC(x) rel_clamp((long long)((uint64_t)(x) - t_origin / 1000))
+#define TMS0(x) ((x) ? TMS(x) : 0LL)         /* 0 stays "never" */
+#define TSEC0(x) ((x) ? TSEC(x) : 0LL)
 static lltd_esp32_ctx_t espctx;
 static int esp_ready;
 static long lineno = 0;
@@ -66,7 +73,7 @@ static void sendHelloMessage(void *ni) {
         }
     }
     hello_len += (size_t)snprintf(hello_log + hello_len, sizeof hello_log - hello_len,
-                                  "%s{\"t\":%llu,\"tick\":%d,\"valid\":%d,\"inc\":%d}", hello_count ? "," : "",
+                                  "%s{\"t\":%lld,\"tick\":%d,\"valid\":%d,\"inc\":%d}", hello_count ? "," : "",
                                   TMS(vp_now_ms), vp_in_tick, valid, incomplete);
     hello_count++;
 }
@@ -123,7 +130,7 @@ static void log_table(session_table *t) {
     if (t) for (int i = 0; i < SESSION_TABLE_MAX_ENTRIES; i++) {
         session_entry *e = &t->entries[i];
         if (!e->valid) continue;
-        fprintf(tr, "%s[%ld,%u,%d,%llu,%u,%u]", first ? "" : ",", key_of_mac(e->mapper_mac), e->generation,
+        fprintf(tr, "%s[%ld,%u,%d,%lld,%u,%u]", first ? "" : ",", key_of_mac(e->mapper_mac), e->generation,
                 e->complete ? 1 : 0, TSEC(e->last_activity_ts), e->seq_number, e->state);
         first = 0;
     }
@@ -140,15 +147,15 @@ static long long clamp_rel(long long x) {
 static void log_state(void) {
     mapping_state *ms = cur->mappingAutomata ? (mapping_state *)cur->mappingAutomata->extra : NULL;
     band_state *b = cur->enumerationAutomata ? (band_state *)cur->enumerationAutomata->extra : NULL;
-    fprintf(tr, "\"now\":%llu,\"ms\":%d,\"mlast\":%llu,\"ss\":%d,\"slast\":%llu,\"es\":%d,\"ctc\":%d,\"inact\":%llu,",
+    fprintf(tr, "\"now\":%lld,\"ms\":%d,\"mlast\":%lld,\"ss\":%d,\"slast\":%lld,\"es\":%d,\"ctc\":%d,\"inact\":%lld,",
             TMS(vp_now_ms),
             cur->mappingAutomata ? cur->mappingAutomata->current_state : -1,
-            cur->mappingAutomata ? TSEC(cur->mappingAutomata->last_ts) : 0ULL,
+            cur->mappingAutomata ? TSEC(cur->mappingAutomata->last_ts) : 0LL,
             cur->sessionAutomata ? cur->sessionAutomata->current_state : -1,
-            cur->sessionAutomata ? TSEC(cur->sessionAutomata->last_ts) : 0ULL,
+            cur->sessionAutomata ? TSEC(cur->sessionAutomata->last_ts) : 0LL,
             cur->enumerationAutomata ? cur->enumerationAutomata->current_state : -1,
-            ms ? ms->ctc : -1, ms ? TSEC0(ms->inactive_timeout_ts) : 0ULL);
-    fprintf(tr, "\"ni\":[%u,%u],\"r\":[%u,%u],\"begun\":%d,\"hto\":%lld,\"bto\":%lld,\"lasttx\":%llu,",
+            ms ? ms->ctc : -1, ms ? TSEC0(ms->inactive_timeout_ts) : 0LL);
+    fprintf(tr, "\"ni\":[%u,%u],\"r\":[%u,%u],\"begun\":%d,\"hto\":%lld,\"bto\":%lld,\"lasttx\":%lld,",
             b ? b->Ni >> 16 : 0, b ? b->Ni & 0xFFFF : 0, b ? b->r >> 16 : 0, b ? b->r & 0xFFFF : 0, b ? (b->begun ? 1 : 0) : 0,
             b ? (b->hello_timeout_ts ? clamp_rel((long long)b->hello_timeout_ts - (long long)vp_now_ms) : -1000000000LL) : 0,
             b ? (b->block_timeout_ts ? clamp_rel((long long)b->block_timeout_ts - (long long)vp_now_ms) : -1000000000LL) : 0,
@@ -278,12 +285,12 @@ int main(int argc, char **argv) {
                 int forced = 0;
                 if (nt > 3) { a->current_state = (uint8_t)atoi(tok[2]); a->last_ts = strtoull(tok[3], NULL, 0); forced = 1; }
                 int s0 = a->current_state;
-                unsigned long long l0 = TSEC(a->last_ts);
+                long long l0 = TSEC(a->last_ts);
                 if (c[0] == 'M') switch_state_mapping(a, input, "verif");
                 else if (c[0] == 'S') switch_state_session(a, input, "verif");
                 else switch_state_enumeration(a, input, "verif");
                 ev_begin(c[0] == 'M' ? "mstep" : c[0] == 'S' ? "sstep" : "estep");
-                fprintf(tr, "\"forced\":%d,\"in\":%d,\"s0\":%d,\"l0\":%llu,\"s1\":%d,\"l1\":%llu,\"nows\":%llu", forced, input, s0, l0,
+                fprintf(tr, "\"forced\":%d,\"in\":%d,\"s0\":%d,\"l0\":%lld,\"s1\":%d,\"l1\":%lld,\"nows\":%lld", forced, input, s0, l0,
                         a->current_state, TSEC(a->last_ts), TSEC(vp_now_ms / 1000));
                 ev_end();
             } else if (!strcmp(c, "TADD") || !strcmp(c, "TFIND") || !strcmp(c, "TREM") || !strcmp(c, "TCOMP")) {
@@ -304,16 +311,16 @@ int main(int argc, char **argv) {
                 }
                 ev_begin("top");
                 fprintf(tr, "\"op\":\"%s\",\"key\":%ld,\"gen\":%u,\"seq\":%u,\"ret\":", c, key, gen, seq);
-                if (called && e) fprintf(tr, "[%ld,%u,%d,%llu,%u]", key_of_mac(e->mapper_mac), e->generation, e->complete ? 1 : 0,
+                if (called && e) fprintf(tr, "[%ld,%u,%d,%lld,%u]", key_of_mac(e->mapper_mac), e->generation, e->complete ? 1 : 0,
                                          TSEC(e->last_activity_ts), e->seq_number);
                 else fprintf(tr, "[]");
-                fprintf(tr, ",\"nows\":%llu,", TSEC(vp_now_ms / 1000));
+                fprintf(tr, ",\"nows\":%lld,", TSEC(vp_now_ms / 1000));
                 log_table(cur->sessionTable);
                 ev_end();
             } else if (!strcmp(c, "TCLEAR")) {
                 session_table_clear(cur->sessionTable);
                 ev_begin("top");
-                fprintf(tr, "\"op\":\"TCLEAR\",\"key\":0,\"gen\":0,\"seq\":0,\"ret\":[],\"nows\":%llu,", TSEC(vp_now_ms / 1000));
+                fprintf(tr, "\"op\":\"TCLEAR\",\"key\":0,\"gen\":0,\"seq\":0,\"ret\":[],\"nows\":%lld,", TSEC(vp_now_ms / 1000));
                 log_table(cur->sessionTable);
                 ev_end();
             } else if (!strcmp(c, "TTICK")) {
@@ -322,7 +329,7 @@ int main(int argc, char **argv) {
                 automata_tick(NULL, NULL, cur->sessionTable, NULL);
                 vp_in_tick = 0;
                 ev_begin("top");
-                fprintf(tr, "\"op\":\"TTICK\",\"key\":0,\"gen\":0,\"seq\":0,\"ret\":[],\"nows\":%llu,", TSEC(vp_now_ms / 1000));
+                fprintf(tr, "\"op\":\"TTICK\",\"key\":0,\"gen\":0,\"seq\":0,\"ret\":[],\"nows\":%lld,", TSEC(vp_now_ms / 1000));
                 log_table(cur->sessionTable);
                 ev_end();
             } else if (!strcmp(c, "TICK")) {
@@ -344,7 +351,7 @@ int main(int argc, char **argv) {
                 glue_frame(cur, (ssize_t)len);
                 vp_cur = NULL;
                 ev_begin("glue");
-                fprintf(tr, "\"op\":%u,\"tos\":%u,\"len\":%zu,\"now0\":%llu,\"rs\":", n > 17 ? fb[17] : 0, n > 15 ? fb[15] : 0, len, TMS(now0));
+                fprintf(tr, "\"op\":%u,\"tos\":%u,\"len\":%zu,\"now0\":%lld,\"rs\":", n > 17 ? fb[17] : 0, n > 15 ? fb[15] : 0, len, TMS(now0));
                 vp_json_bytes(tr, n >= 30 ? fb + 24 : (const uint8_t *)"\0\0\0\0\0\0", 6);
                 fprintf(tr, ",\"gen\":%u,\"seq\":%u,", n >= 34 ? (fb[32] << 8 | fb[33]) : 0, n >= 32 ? (fb[30] << 8 | fb[31]) : 0);
                 log_state();
@@ -359,11 +366,11 @@ int main(int argc, char **argv) {
                 uint8_t *exact = malloc(len ? len : 1);
                 memcpy(exact, fb, len);
                 int m0 = espctx.mapping->current_state, s0 = espctx.session->current_state, e0 = espctx.enumeration->current_state;
-                unsigned long long ml0 = TSEC(espctx.mapping->last_ts), sl0 = TSEC(espctx.session->last_ts);
+                long long ml0 = TSEC(espctx.mapping->last_ts), sl0 = TSEC(espctx.session->last_ts);
                 lltd_esp32_handle_frame(&espctx, exact, len);
                 free(exact);
                 ev_begin("esp");
-                fprintf(tr, "\"len\":%zu,\"op\":%d,\"m0\":%d,\"s0\":%d,\"e0\":%d,\"ml0\":%llu,\"sl0\":%llu,\"m1\":%d,\"s1\":%d,\"e1\":%d,\"nows\":%llu",
+                fprintf(tr, "\"len\":%zu,\"op\":%d,\"m0\":%d,\"s0\":%d,\"e0\":%d,\"ml0\":%lld,\"sl0\":%lld,\"m1\":%d,\"s1\":%d,\"e1\":%d,\"nows\":%lld",
                         len, len >= 18 ? fb[17] : -1, m0, s0, e0, ml0, sl0, espctx.mapping->current_state, espctx.session->current_state,
                         espctx.enumeration->current_state, TSEC(vp_now_ms / 1000));
                 ev_end();
